@@ -3,7 +3,8 @@
 // Generates random procedures of the language of lean/Csvq/Model/Scope.lean (nesting <= 6, variable and
 // function names from pools of 4, loops bounded by private counters, every function call passes a decreasing
 // budget argument, cursor loops WHILE [VAR] @x IN cursor over a small temporary table with RETURN / BREAK /
-// CONTINUE / EXIT at random, inside functions and at top level), renders them as csvq program text (IF … as
+// CONTINUE / EXIT at random, inside functions and at top level, statements that reach a block indirectly:
+// SOURCE file / EXECUTE 'text' / EXECUTE prepared — model statement Z = the same statements in place), renders them as csvq program text (IF … as
 // IF/ELSEIF/ELSE or as CASE WHEN), runs them through the real Processor in-process — all in ONE session, so
 // that every program runs on whatever its predecessors left in csvq's pool of blocks — and records
 //
@@ -15,7 +16,7 @@
 // Csvq/Props/C15.lean quantify over all syntax trees.
 //
 // Laws checked on the implementation alone (law* functions): objects (variable, cursor, temporary table,
-// function, aggregate) declared at random depth inside IF / ELSE / ELSEIF / CASE / WHILE / WHILE IN / function
+// function, aggregate) declared — directly, or through SOURCE / EXECUTE / PREPARE+EXECUTE — at random depth inside IF / ELSE / ELSEIF / CASE / WHILE / WHILE IN / function
 // bodies do not survive the block; inner objects shadow outer ones and leave them unchanged; outer assignments
 // persist; a declaration at the very end of a block is invisible; concurrent invocations have their own
 // parameters and locals; and after EVERY generated program: a recursive probe with a known trace
